@@ -709,7 +709,7 @@ func (x *fnCtx) havocHeap(st *State, name string) {
 	x.setHeap(st, name, Fresh("H."+name, cur.Sort))
 }
 
-func (x *fnCtx) havocAllHeap(st *State, why string) {
+func (x *fnCtx) havocAllHeap(st *State, why string, passed ...*Val) {
 	x.eng.logAbs("%s: havoc of the whole heap (%s)", x.short, why)
 	alloc := st.heap.m["$alloc"]
 	old := st.heap
@@ -731,8 +731,33 @@ func (x *fnCtx) havocAllHeap(st *State, why string) {
 			st.heap.m[name] = cur
 		}
 	}
-	// stack-allocated locals (no escape per go/ssa) are not reachable by the callee
+	// locals of this function (and variables captured by this closure) are modified by a
+	// callee only if it receives their address in this call (A-ESCAPE)
+	passedRef := map[*Term]bool{}
+	var mark func(v *Val)
+	mark = func(v *Val) {
+		if v == nil {
+			return
+		}
+		for _, e := range v.Tup {
+			mark(e)
+		}
+		for _, l := range v.L {
+			passedRef[l] = true
+		}
+		if v.Fn != nil {
+			for _, b := range v.Fn.Bindings {
+				mark(b)
+			}
+		}
+	}
+	for _, p := range passed {
+		mark(p)
+	}
 	for _, so := range st.stackObjs {
+		if passedRef[so.ref] {
+			continue
+		}
 		for _, nm := range so.names {
 			srt := heapSorts[nm]
 			before := old.get(nm, srt)
